@@ -539,6 +539,11 @@ def _make_evalable_objectives_from_formula(
         no_relation = []
         others = {}
         for t in terms:
+            # Terms may only be re-joined if they share the same unknown symbols. Take the
+            # key before unknowns are replaced by 1: two terms scaled by different unknown
+            # factors must stay separate goals, or minimizing their sum would not minimize
+            # the formula.
+            unknown = fzs(t.free_symbols - symbols_enumerated)
             if transform_terms:
                 t = _try_replace_unknowns(t)
             try:
@@ -549,9 +554,7 @@ def _make_evalable_objectives_from_formula(
             if t.free_symbols.isdisjoint(symbols_enumerated):
                 no_relation.append(t)
             else:
-                others.setdefault(fzs(t.free_symbols - symbols_enumerated), []).append(
-                    t
-                )
+                others.setdefault(unknown, []).append(t)
 
         # Charge for symbols that differ between the terms, because getting rid of those
         # would let us do fewer partitions.
